@@ -53,7 +53,9 @@ def expressions(rnd, objs, plain, feats_by_class):
                    '%s.gd.' % o, '%s.gd' % o, '%s.cprop.' % o, '%s.aprop.' % o, '%s.aprop' % o,
                    '%s.tprop.' % o, '%s.tprop' % o, '%s.iprop.' % o, '%s.aprop(' % o,
                    'not %s' % o, '%s.i_list[0].' % o, 'next(%s).' % o, 'bool(%s)' % o,
-                   'x, y = %s\nx.' % o, '%s.dynamic_one.' % o]
+                   'x, y = %s\nx.' % o, '%s.dynamic_one.' % o,
+                   '(%s or 1).' % o, '(%s and 1).' % o, 'if %s:\n    zz = 1\nelse:\n    zz = "s"\nzz' % o,
+                   'zz = 1\nwhile %s:\n    zz = "s"\nzz.' % o]
         elif o.startswith('sub_') and o not in ('sub_box', 'sub_iterbox'):
             ex += ['%s[0].' % o, '%s[0]' % o, "%s['k']." % o, "%s['k']" % o, '%s[1].' % o]
         elif o == 'sub_iterbox':
